@@ -59,6 +59,9 @@ var longTags = func() []ap.LangRef {
 var texts = []string{"", "a", "b", "hello", "héllo wörld", "line\\nbreak", "{\"k\":\"v\"}", "-", "<p>x</p>", "é\U0001F600",
 	"HELLO",                        // differs from "hello" in case only
 	longText + "1", longText + "2", // long texts that differ in their last byte only
+	// not valid UTF-8: Latin-1, a text cut inside a character, two different invalid bytes (which a
+	// "sanitising" container would turn into the same replacement character), a NUL
+	"caf\xe9", "cut \xe2\x82", "\xff", "\xfe", "a\x00b",
 }
 
 var longText = strings.Repeat("0123456789abcdef", 20)
@@ -159,6 +162,13 @@ func firstWith(model []pair, tag ap.LangRef) (pair, bool) {
 }
 
 func run(c *core.Ctx) {
+	if c.Tape.Bool(1, 6) {
+		// the application has configured a default language: the containers must not care
+		old := ap.DefaultLang
+		ap.DefaultLang = []ap.LangRef{"en", "fr", "", "de"}[c.Tape.Draw(4)]
+		c.Probe("default_lang_configured")
+		defer func() { ap.DefaultLang = old }()
+	}
 	tags = baseTags
 	if c.Tape.Bool(1, 40) {
 		tags = longTags
